@@ -135,17 +135,21 @@ def func(f, *args):
 
 
 def _exact_root(v, n):
-    """v ** n for rational v>0 and rational n, if exact; else None."""
-    num, den = v.numerator, v.denominator
-    try:
-        rn = round(num ** float(n))
-        rd = round(den ** float(n))
-    except OverflowError:
+    """v ** n for rational v>0 and rational n = p/q, if exact; else None."""
+    p_, q_ = n.numerator, n.denominator
+
+    def iroot(x, k):
+        if x < 0:
+            return None
+        r = round(x ** (1.0 / k)) if x < 2 ** 52 else int(x ** (1.0 / k))
+        for c in (r - 1, r, r + 1):
+            if c >= 0 and c ** k == x:
+                return c
         return None
-    inv = 1 / n
-    if inv.denominator == 1 and F(rn) ** int(inv) == num and F(rd) ** int(inv) == den:
-        return F(rn, rd)
-    return None
+    rn, rd = iroot(v.numerator, q_), iroot(v.denominator, q_)
+    if rn is None or rd is None or (rn == 0 and p_ < 0):
+        return None
+    return F(rn, rd) ** p_
 
 
 def power(p, n):
@@ -405,7 +409,7 @@ def atom_deriv(a, table):
 # ---- extraction from the AST ----------------------------------------------------------------------------
 
 OPAQUE = {"tan", "arctan2", "arccos", "arcsin", "arctan", "arctanh", "arccosh", "arcsinh", "exp", "log",
-          "degrees", "radians", "norm", "sign"}
+          "degrees", "radians", "sign"}
 
 
 class Extract:
@@ -534,10 +538,11 @@ class Extract:
             return cross(self.ev(n.args[0]), self.ev(n.args[1]))
         if fname == "dot":
             return matmul(self.ev(n.args[0]), self.ev(n.args[1]))
-        if fname == "norm" and full.endswith("linalg.norm"):
+        if fname == "norm":
             v = self.ev(n.args[0])
-            if isinstance(v, list):
+            if isinstance(v, list) and not is_mat(v):
                 return power(dot(v, v), F(1, 2))
+            raise Unsupported("norm of a non-vector")
         if fname == "transpose" and n.args:
             return transpose(self.ev(n.args[0]))
         if fname in OPAQUE:
